@@ -513,6 +513,9 @@ func checkInvariants(m *Sim, a *Association, who string) {
 }
 
 func (m *Sim) invariantsAll() {
+	for _, h := range m.quiescentHooks {
+		h()
+	}
 	if !m.InvOn {
 		return
 	}
